@@ -32,4 +32,8 @@ Module SM.
   (* Store / AddB draw the level (raising highestLevel) before they search *)
   Definition store_cost (k : Z) (h : nat) (s : skm) : nat := find_cost k (randomlevel h s).
   Definition lane_bound (s : skm) : nat := (hl s + runs_bound node nh (hl s) (nodes s))%nat.
+  (* LoadOrStore / LoadOrStoreLazy of an absent key: the search runs with highestLevel as read at entry; then the level
+     h is drawn (raising highestLevel) and, when it exceeds the value read at entry, the search is repeated *)
+  Definition los_cost (k : Z) (h : nat) (s : skm) : nat :=
+    (find_cost k s + if (hl s <? h)%nat then store_cost k h s else 0)%nat.
 End SM.
